@@ -249,7 +249,14 @@ def scenario(rnd, pool):
 
 def member_input(m):
     if m["form"] == "object":
-        return build(m["key"], **({"timeframe": m["tf"]} if m["tf"] else {}))
+        ind = build(m["key"], **({"timeframe": m["tf"]} if m["tf"] else {}))
+        import zlib
+        if zlib.crc32(f"{m['key']}|{m['tf']}".encode()) % 3 == 0:
+            # an Indicator object that was already used on its own (helper series exist and are bound to its old candle list)
+            # before it is handed to the Hexital: it must move over completely
+            _, exc = call(lambda: (ind.append(gen.clone(stream("random", 12, seed=5))), ind.calculate()))
+            m["used_before"] = exc is None
+        return ind
     if m["form"] == "dict":
         return config_dict(m["key"], m["tf"])
     return build(m["key"], **({"timeframe": m["tf"]} if m["tf"] else {})).settings
@@ -490,6 +497,24 @@ def run(tier, seed, focus=None):
     if HANGS["seen"]:
         col.note(f"{HANGS['seen']} scenarios (HA + timeframe_fill + member timeframe) never returned and were cut by the "
                  f"{WATCHDOG_S} s watchdog; {HANGS['skipped']} further scenarios of that shape were skipped")
+    # a member FINER than the Hexital's own timeframe (the base candles are already collapsed when the member's manager is built)
+    for hex_tf, mem_tf in (("T10", "T5"), ("T15", "T5")):
+        col.tick()
+        cs = stream("random", 60, seed=seed + 3)
+        spec = {"hexital": {"timeframe": hex_tf}, "members": [f"SMA@{mem_tf}/object"], "stream": f"oracles.c08.stream('random',60,seed={seed + 3})",
+                "at_construction": 60, "chunks": []}
+        def go(hex_tf=hex_tf, mem_tf=mem_tf):
+            ind = build("SMA", timeframe=mem_tf)
+            h = Hexital("c08", gen.clone(cs), [ind], timeframe=hex_tf)
+            h.calculate()
+            twin = build("SMA", candles=gen.clone(cs), timeframe=mem_tf)
+            twin.calculate()
+            return ohlcv(ind.candles), ohlcv(twin.candles)
+        res, exc = call(go)
+        if exc is None and res[0] != res[1]:
+            col.fail("finer-member-timeframe", f"{mem_tf}-member-in-{hex_tf}-hexital/candles", "hexital.core.hexital.Hexital._validate_indicators",
+                     f"SMA_5_{mem_tf} in a Hexital(timeframe={hex_tf}): {len(res[0])} candles, the standalone twin has {len(res[1])}: "
+                     f"the member's manager is built from the already collapsed {hex_tf} candles", spec)
     check_roundtrip(col, stream("random", 45, seed=seed), f"oracles.c08.stream('random',45,seed={seed})")
     col.note("settings round trip: every INDICATOR_MAP class (+ Amorph over doji / inv_hammer / positive) x variants plain, "
              "timeframe, renamed, fill+lifespan+HA x fresh / after use")
